@@ -59,6 +59,7 @@ class EngineBase:
         self.solver_timeout_ms = 4000
         self._class_axioms = None
         self.feas_cache = {}
+        self._quant_cache = {}
         self.stats = {"feas_checks": 0}
 
     # ------------------------------------------------------------------ classes
@@ -404,10 +405,24 @@ class EngineBase:
 
     # ------------------------------------------------------------------ solver-side helpers
     def feasible(self, st, extra=None):
-        """cheap check whether pc (and extra) is satisfiable; unknown counts as feasible"""
+        """cheap check whether pc (and extra) is satisfiable; unknown counts as feasible.
+        First on the quantifier-free part only (fast, still sound for pruning), then with everything."""
         self.stats["feas_checks"] += 1
+        qf = [c for c in st.pc if not self.has_quant(c)]
         s = z3.Solver()
-        s.set("timeout", 400)
+        s.set("timeout", 150)
+        for a in self.class_axioms_ground():
+            s.add(a)
+        for c in qf:
+            s.add(c)
+        if extra is not None:
+            s.add(extra)
+        r = s.check()
+        if r == z3.unsat:
+            self.infeasible += 1
+            return False
+        s = z3.Solver()
+        s.set("timeout", 80)
         for a in self.class_axioms():
             s.add(a)
         for a in st.hs.axioms:
@@ -421,6 +436,26 @@ class EngineBase:
             self.infeasible += 1
             return False
         return True
+
+    def has_quant(self, t):
+        key = t.get_id()
+        c = self._quant_cache.get(key)
+        if c is None:
+            c = self._has_quant(t, set())
+            self._quant_cache[key] = c
+        return c
+
+    def _has_quant(self, t, seen):
+        if z3.is_quantifier(t):
+            return True
+        i = t.get_id()
+        if i in seen:
+            return False
+        seen.add(i)
+        return any(self._has_quant(ch, seen) for ch in t.children())
+
+    def class_axioms_ground(self):
+        return [a for a in self.class_axioms() if not z3.is_quantifier(a)]
 
     def split(self, st, cond, k_true, k_false, label=None):
         """fork on a z3 Bool; continuations receive the state; returns combined outcome list"""
